@@ -107,14 +107,32 @@ def rescore_real_tree(p, cats, tree):
     return s + p.deps[h][0]
 
 
-def single_suite(ctx, oracles, gen_kwargs_list, count):
+def real_grammar_suite(ctx, oracles, count):
+    """small sentences parsed by the real depccg.parsing.run with the real English / Japanese rule
+    functions and unary tables; the functions are tabulated on the closure of the sentence's
+    categories so that the model and the enumeration oracle see the same grammar"""
+    rng = ctx.rng
+    items = []
+    tries = 0
+    while len(items) < count and tries < count * 6:
+        tries += 1
+        lang = 'ja' if tries % 3 == 0 else 'en'
+        r = G.real_grammar_problem(rng, lang)
+        if r is not None:
+            items.append(r)
+    ctx.extra['real_grammar_problems'] = len(items)
+    single_suite(ctx, oracles, [], 0, items=items)
+
+
+def single_suite(ctx, oracles, gen_kwargs_list, count, items=None):
     """one-sentence calls of depccg.parsing.run, compared with the model's expected trees"""
     from driver import run_lines
     rng = ctx.rng
     if not ensure_native(ctx):
         return
-    per = max(1, count // len(gen_kwargs_list))
-    items = []
+    given = items is not None
+    items = [it if len(it) == 5 else it + (None,) for it in (items or [])]
+    per = max(1, count // max(1, len(gen_kwargs_list)))
     for kw in gen_kwargs_list:
         for _ in range(per):
             p = S.random_problem(rng, **kw)
@@ -122,25 +140,27 @@ def single_suite(ctx, oracles, gen_kwargs_list, count):
             cats = G.category_pool(K, rng)
             gram = G.TableGrammar(cats, p.bin, p.un)
             toks = G.tokens_for(p)
-            items.append((p, cats, gram, toks))
+            items.append((p, cats, gram, toks, None))
     # very long searches are not sent to the (quadratic) model
     big = []
-    for p, _, _, _ in items:
+    for p, _, _, _, _ in items:
         try:
             big.append(len(S.run_cpp(p)['pops']) > 4000)
         except Exception:
             big.append(True)
-    lines = [S.model_line(p) for (p, _, _, _), b in zip(items, big) if not b]
+    lines = [S.model_line(p) for (p, _, _, _, _), b in zip(items, big) if not b]
     model_ok = ctx.lean is None or ctx.lean.driver_ok
     small = iter(run_lines(lines) if model_ok else [None] * len(lines))
     outs = [None if b else next(small) for b in big]
     stats = {'parsed': 0, 'failed': 0, 'ties': 0}
-    for (p, cats, gram, toks), mline in zip(items, outs):
+    retrieve_cases = []
+    import tree_common as T
+    for (p, cats, gram, toks, funcs), mline in zip(items, outs):
         desc = p.to_json()
         desc['categories'] = [str(c) for c in cats]
         ctx.evaluations += 1
         try:
-            res = G.run_real(p, cats, gram, [toks], [G.scoring(p)], max_length=250, processes=1, max_chunk_size=20)
+            res = G.run_real(p, cats, gram, [toks], [G.scoring(p)], max_length=250, processes=1, max_chunk_size=20, funcs=funcs)
         except Exception as e:
             ctx.fail(f'depccg.parsing.run raised {type(e).__name__}: {e}', desc, fingerprint=['glue-raise', type(e).__name__])
             continue
@@ -151,6 +171,21 @@ def single_suite(ctx, oracles, gen_kwargs_list, count):
         failed = len(trees) == 1 and trees[0].score == -float('inf')
         stats['failed' if failed else 'parsed'] += 1
         admitted = S.admitted_tags(p)
+        if 'optimal' in oracles and p.n <= 4:
+            try:
+                chart = S.enumerate_derivations(p, admitted, limit=60000)
+                roots = S.root_derivations(p, chart)
+                best = max((s for s, _ in roots), default=None)
+                if not p.head_uniform:
+                    ctx.fail('the grammar function returned results with different head directions: the search order no longer '
+                             'guarantees the best parse', desc, fingerprint=['glue-head-uniform'])
+                elif failed and roots:
+                    ctx.fail('sentence reported as failed although the grammar licenses a derivation', desc, fingerprint=['glue-spurious-failure'])
+                elif not failed and p.nbest >= 1 and (best is None or S.to_int(trees[0].score) != best):
+                    ctx.fail(f'first parse scores {S.to_int(trees[0].score)}, the best licensed derivation scores {best} (1/{S.SCALE})', desc,
+                             fingerprint=['glue-optimal'])
+            except OverflowError:
+                pass
         if not failed:
             ctx.nontrivial_add(json.dumps(desc, sort_keys=True))
             for tree, score in trees:
@@ -196,4 +231,9 @@ def single_suite(ctx, oracles, gen_kwargs_list, count):
         want = [(s, G.expected_tree(p, cats, gram, words, d)) for s, d in mres]
         if want != got:
             ctx.disagree('run', desc, json.dumps(want)[:700], json.dumps(got)[:700], note='trees/labels/heads/scores differ')
+        # the model of retrieve_tree (lean/Depccg/GlueTree.lean) on the same derivation and tables
+        for (sc, d), (tree, _) in zip(mres, trees):
+            retrieve_cases.append(('retrieve', G.retrieve_line(p, cats, gram, toks, d), 'ok ' + T.enc_tree(tree), desc))
     ctx.extra['glue_stats'] = stats
+    ctx.extra['retrieve_cases'] = len(retrieve_cases)
+    common.compare_with_model(ctx, retrieve_cases)
